@@ -13,7 +13,7 @@ BUDGET = {'quick': 200, 'thorough': 2400}
 CHUNK = 2
 RULE = ('Cases: an ancestor with 1..3 planted insertions/deletions of length 1..10 (< k), >= 4k apart and from the ends, every '
         'non-trivial carrier set of 3..8 samples, k in {11,15,21,31}, threads 1..4 (a share with seeded jitter), samples in random '
-        'orientation, a quarter of the runs writing over larger output files of an earlier run under the same prefix; the generator rejects inputs in which a (k-1)-mer occurs at two different loci (or on both strands, or is self-complementary) over the union of the samples, the ancestor and the single-indel genomes.  '
+        'orientation, a quarter of the runs writing over larger output files of an earlier run under the same prefix, a third with dots in the output prefix, -m at its default, 0, 0.1 and 0.5; the generator rejects inputs in which a (k-1)-mer occurs at two different loci (or on both strands, or is self-complementary) over the union of the samples, the ancestor and the single-indel genomes.  '
         'Every record of <out>_indels.vcf is checked by substring tests on the sample sequences the generator wrote: '
         'before+REF+after (or its reverse complement; - = empty) occurs in exactly the samples genotyped 0, before+ALT+after in '
         'exactly those genotyped 1, no sample is genotyped for an allele it lacks.  Each record must match one planted indel by '
@@ -22,7 +22,7 @@ RULE = ('Cases: an ancestor with 1..3 planted insertions/deletions of length 1..
         'planted indels must be reported (inconclusive below 500 planted), over the whole run and over each of its three input populations: random indels, indels that repeat their flank (homopolymer / tandem-unit length changes), and indels whose junction lies inside a split k-mer with self-complementary arms (a quarter of the cases each for the last two).  Non-trivial: >= 1 planted indel; distinct = inputs.')
 ASSUMPTIONS = ['the sample sequences written by the generator are the ground truth',
                'recall is judged on the aggregate of a run with a minimum sample size of 500 planted indels']
-REQUIRED = {t: ['records_checked', 'planted', 'planted:plain', 'planted:flank', 'planted:palin', 'insertions', 'deletions', 'threads>1', 'multi_indel_inputs', 'headers_checked', 'runs_over_existing_output'] for t in ('quick', 'thorough')}
+REQUIRED = {t: ['records_checked', 'planted', 'planted:plain', 'planted:flank', 'planted:palin', 'insertions', 'deletions', 'threads>1', 'multi_indel_inputs', 'headers_checked', 'runs_over_existing_output', 'dotted_output_prefix', 'runs_with_-m_0'] for t in ('quick', 'thorough')}
 KS = [11, 15, 21, 31]
 
 
@@ -217,6 +217,14 @@ def run_case(desc, ctx):
     if p.returncode != 0:
         raise Inconclusive('build failed: ' + p.stderr[-200:])
     env = {'SKA_VERIF_JITTER': '%d:300' % desc['jitter']} if desc.get('jitter') is not None else None
+    # output prefix with or without dots in its last component; -m (allowed share of missing samples) at its default, at 0 (the
+    # planted data have no missing sample, so the bound is met with equality) and above
+    OUT = 'out' if desc['seed'] % 3 else 'res.k%d.v1' % k
+    marg = {0: ['-m', '0'], 1: ['-m', '0.5'], 2: ['-m', '0.1']}.get(desc['seed'] % 7, [])
+    if OUT != 'out':
+        res.count('dotted_output_prefix')
+    if marg == ['-m', '0']:
+        res.count('runs_with_-m_0')
     if desc['seed'] % 4 == 0:
         # an earlier, larger result under the same output prefix (a real earlier run where one succeeds, and in any case
         # files longer than anything this run writes)
@@ -225,12 +233,12 @@ def run_case(desc, ctx):
         if g2 is not None:
             f2 = [G.write_fa(ctx.path('prev%d.fa' % i), [s_]) for i, s_ in enumerate(g2[1])]
             if G.ska_build(ctx, ctx.path('prev'), f2, k, True).returncode == 0:
-                ctx.sh(ctx.ska, 'lo', ctx.path('prev.skf'), ctx.path('out'))
+                ctx.sh(ctx.ska, 'lo', ctx.path('prev.skf'), ctx.path(OUT))
         for suf in ('_indels.vcf', '_snps.fas'):
-            old_ = open(ctx.path('out' + suf)).read() if os.path.exists(ctx.path('out' + suf)) else ''
-            ctx.write('out' + suf, old_ + ''.join('chr_old\t%d\t.\tACGT\tA\t.\t.\t.\tGT\t0\t1\t0\t1\t0\t1\t0\t1\n' % i for i in range(60)))
+            old_ = open(ctx.path(OUT + suf)).read() if os.path.exists(ctx.path(OUT + suf)) else ''
+            ctx.write(OUT + suf, old_ + ''.join('chr_old\t%d\t.\tACGT\tA\t.\t.\t.\tGT\t0\t1\t0\t1\t0\t1\t0\t1\n' % i for i in range(60)))
         res.count('runs_over_existing_output')
-    p = ctx.sh(ctx.ska, 'lo', ctx.path('o.skf'), ctx.path('out'), '--threads', desc['threads'], env=env)
+    p = ctx.sh(ctx.ska, 'lo', ctx.path('o.skf'), ctx.path(OUT), '--threads', desc['threads'], *marg, env=env)
     res.evals += 1
     res.see('k', k)
     if desc['threads'] > 1:
@@ -243,7 +251,7 @@ def run_case(desc, ctx):
         return res
     recs = []
     try:
-        for l in open(ctx.path('out_indels.vcf')):
+        for l in open(ctx.path(OUT + '_indels.vcf')):
             if l.startswith('#CHROM'):
                 if l.rstrip('\n').split('\t')[9:] != snames:
                     res.violate('C18:header', 'sample columns of the indel VCF are %s, the samples are %s (in this order)'
